@@ -121,7 +121,7 @@ m = {
    "enable": "no source hooks in /repo: recorders are installed from /verif by wrapping functions at run time; ./check sets JELLY_RDF_PYJELLY_VERIF=1 and PYTHONPATH=/repo so the working tree (not the compiled copy in /venv) is imported",
    "baseline_off_cmd": "cd /repo && /venv/bin/python -m pytest -ra -q -p no:cacheprovider --timeout=900 --continue-on-collection-errors; rc=$?; git -C /repo checkout -- tests/integration_tests/test_examples/temp; exit $rc",
    "source_commits": [],
-   "fix_commits": ["caaa11c", "ad129d3", "7027c39", "8dbb8a6", "b731d1a", "a25bb8c", "e37ed0f", "024b3cb", "401ae95", "38e535b", "6cc2110"],
+   "fix_commits": ["caaa11c", "ad129d3", "7027c39", "8dbb8a6", "b731d1a", "a25bb8c", "e37ed0f", "024b3cb", "401ae95", "38e535b", "6cc2110", "c6d2d66"],
    "add_only": True,
  },
  "engines": [
